@@ -41,6 +41,10 @@ type c07Cfg struct {
 	// FB == 4 (implicit TLS): history — the Client first dials WITHOUT TLS (plain-text server on the same port) and
 	// closes; the caller then switches to implicit TLS with SetSSL(true) and dials again: that second connection is
 	// the one judged.
+	// FB == 5 (implicit TLS): the connection comes from the caller's own dial function (WithDialContextFunc) and is
+	// a plain one to a plain-text server. The transport is then the caller's business (the "nothing in clear" clause is
+	// not judged), but the password clauses still are: implicit TLS being configured does not make that connection
+	// an encrypted one.
 	// FB == 3 (mandatory / opportunistic): WithTLSPortPolicy, the dial to the primary port is refused and the
 	// connection to the fallback port is the one judged.
 	FB int `json:"fb,omitempty"`
@@ -177,6 +181,15 @@ func c07Exec(r *vf.Run, cfg c07Cfg) []finding {
 			cl.SetSSL(true)
 			return true
 		}
+	} else if cfg.Policy == 3 && cfg.FB == 5 {
+		conn.ImplicitTLS = false
+		rig := &hx.Rig{Mk: func(n int) *refsmtp.Conn {
+			if n != 0 {
+				return nil
+			}
+			return conn
+		}}
+		opts = append(opts, mail.WithSSL(), mail.WithDialContextFunc(rig.Dial))
 	} else if cfg.Policy == 3 {
 		conn.ImplicitTLS = true
 		var err error
@@ -337,6 +350,9 @@ func c07Exec(r *vf.Run, cfg c07Cfg) []finding {
 			add(fmt.Sprintf("mandatory-tls/bad-certificate-accepted/hs=%d", cfg.HS), "DialWithContext succeeded although the server's certificate/handshake is not valid for the host")
 		}
 	case 3:
+		if cfg.FB == 5 {
+			break
+		}
 		if len(clear) > 0 && clear[0] != 0x16 { // (a ClientHello sent to a plain-text server is not clear text)
 			add("implicit-tls/cleartext-bytes", "implicit TLS: the client sent %q in clear", clipS(string(clear), 60))
 		}
@@ -356,7 +372,7 @@ func c07Exec(r *vf.Run, cfg c07Cfg) []finding {
 	}
 	// 2. password confidentiality
 	revealing := an == "PLAIN" || an == "LOGIN" || an == "AUTODISCOVER" || strings.HasPrefix(an, "CUSTOM")
-	if revealing && !cfg.Local && cfg.Policy != 3 {
+	if revealing && !cfg.Local && (cfg.Policy != 3 || cfg.FB == 5) {
 		b64 := base64.StdEncoding.EncodeToString
 		for name, nd := range map[string]string{"the raw password": c07Pass, "base64(password)": b64([]byte(c07Pass)), "the PLAIN response": b64([]byte("\x00" + c07User + "\x00" + c07Pass))} {
 			if bytes.Contains(clear, []byte(nd)) {
@@ -419,7 +435,7 @@ func init() {
 	vf.Register(&vf.Check{
 		ID: "C07", Title: "TLS policy and credential confidentiality hold against any server",
 		Run: func(r *vf.Run) {
-			r.SetRule("the full product TLS policy {mandatory, opportunistic, none, implicit (go-mail's own TLS dialer over a loopback bridge)} × 13 auth types × (mandatory/opportunistic) WithTLSPortPolicy with the primary port refusing (also with the policy changed afterwards through SetTLSPolicy, which leaves the fallback port in place) × (implicit TLS) a Client that first dialled without TLS and was then switched over with SetSSL(true) × (implicit TLS) fallback enabled with the primary port refusing and the fallback port 25 served by a plain-text or an implicit-TLS server × configuration through options or through the Client's setters (after construction with the opposite settings) × host name {mail.example.test, five remote names that resemble loopback names (localhost.example.test, 127.0.0.1.example.test, …), localhost, 127.0.0.1} × server behaviour {STARTTLS advertised or not; reply 220 / 454 / 501 / garbage / 220 followed by injected plaintext; handshake ok / wrong-name certificate / untrusted certificate / garbage; 7 advertised AUTH lists}, each executed with real crypto/tls handshakes where reached; oracle on the byte tap of everything the client wrote before/after the switch to TLS; distinct by configuration")
+			r.SetRule("the full product TLS policy {mandatory, opportunistic, none, implicit (go-mail's own TLS dialer over a loopback bridge)} × 13 auth types × (mandatory/opportunistic) WithTLSPortPolicy with the primary port refusing (also with the policy changed afterwards through SetTLSPolicy, which leaves the fallback port in place) × (implicit TLS) a Client that first dialled without TLS and was then switched over with SetSSL(true) × (implicit TLS) a plain connection supplied by the caller's own dial function (password clauses only) × (implicit TLS) fallback enabled with the primary port refusing and the fallback port 25 served by a plain-text or an implicit-TLS server × configuration through options or through the Client's setters (after construction with the opposite settings) × host name {mail.example.test, five remote names that resemble loopback names (localhost.example.test, 127.0.0.1.example.test, …), localhost, 127.0.0.1} × server behaviour {STARTTLS advertised or not; reply 220 / 454 / 501 / garbage / 220 followed by injected plaintext; handshake ok / wrong-name certificate / untrusted certificate / garbage; 7 advertised AUTH lists}, each executed with real crypto/tls handshakes where reached; oracle on the byte tap of everything the client wrote before/after the switch to TLS; distinct by configuration")
 			r.Assume("a completed server-side handshake implies the client accepted the certificate (TLS 1.2/1.3 semantics)", "implicit TLS is only exercised against loopback addresses (go-mail's dialer needs a real socket; the fallback cases listen on port 25 of 127.x.y.z)")
 			var cfgs []c07Cfg
 			for pol := 0; pol < 4; pol++ {
@@ -429,6 +445,12 @@ func init() {
 						hostIdx := hostN
 						if local {
 							hostIdx = hostN - 6
+						}
+						if pol == 3 {
+							// implicit TLS configured, the connection supplied by the caller's own dial function
+							for al := range c07AuthLists {
+								cfgs = append(cfgs, c07Cfg{Policy: pol, Auth: a, Local: local, HostIdx: hostIdx, AuthList: al, FB: 5})
+							}
 						}
 						if pol == 3 && !local {
 							continue
@@ -514,7 +536,7 @@ func init() {
 					})
 				}
 			})
-			r.Reached("fallback-connection-used/fb=1", "fallback-connection-used/fb=2", "fallback-connection-used/fb=3", "fallback-connection-used/fb=4", "configured-through-setters", "second-dial-judged",
+			r.Reached("fallback-connection-used/fb=1", "fallback-connection-used/fb=2", "fallback-connection-used/fb=3", "fallback-connection-used/fb=4", "fallback-connection-used/fb=5", "configured-through-setters", "second-dial-judged",
 				"tls-established/mandatory", "tls-established/opportunistic", "tls-established/implicit", "authenticated/PLAIN", "authenticated/SCRAM-SHA-256-PLUS")
 		},
 		Replay: func(r *vf.Run, kase json.RawMessage) {
